@@ -36,7 +36,13 @@ ImplRewards(ev, t) ==
 EvChecks(ev, t) ==
   (CASE ev.ev = "newepoch" ->
           IF ev.res = "ok" THEN NewEpochChecks(st, ev.pre.inflow, t)
-                                \o << <<"C10.newepoch.collector-forwards-its-balance", ev.out.received = ev.pre.inflow>> >>
+                                \o << <<"C10.newepoch.collector-forwards-its-balance", ev.out.received = ev.pre.inflow>>,
+                                      \* C10's own wording: what was transferred = the new epoch's total minus what was rolled over
+                                      <<"C10.newepoch.transferred=new-total-minus-rolled-over",
+                                         LET x == Expiring(st)
+                                             roll == IF x = 0 THEN Zero ELSE st.eps[x].available
+                                             e == t.eps[NEp(t)]
+                                         IN NEp(t) = NEp(st) + 1 => (roll \preceq e.total /\ ev.out.received = e.total -- roll)>> >>
           ELSE Untouched(t)
      [] ev.ev = "claim" ->
           IF ev.res = "ok" THEN ClaimChecks(st, ev.actor, t, ev.out.paid,
